@@ -119,6 +119,11 @@ fn main() {
         "famreplay" => misc::family_replay(&t, &a.s("in", "")),
         "gamereplay" => misc::game_replay(&t, &a.s("in", "")),
         "slices" => misc::slice_events(&a.s("in", ""), &a.s("out", "")),
+        "heavy" => {
+            let v = srch::heavy_positions(&t, a.n("seed", 1), a.n("n", 10) as usize, a.n("queens", 8) as usize);
+            std::fs::write(a.s("out", "heavy.json"), serde_json::to_string(&v).unwrap()).unwrap();
+            json!({"positions": v.as_array().unwrap().len()})
+        }
         "audit" => {
             let (n, distinct, zeros) = t.audit();
             json!({"constants": n, "distinct": distinct, "zeros": zeros})
